@@ -37,6 +37,7 @@ SECOND = 1 / 24 / 60 / 60
 MICROSECOND = SECOND / 1E6
 LEAP_1900_SERIAL_NUMBER = 60  # magic number for non-existent 1900/02/29
 LEAP_1900_TUPLE = 1900, 2, 29
+DAYS_IN_400_YEARS = (dt.datetime(2400, 1, 1) - dt.datetime(2000, 1, 1)).days
 
 TIME_CHARS = set('0123456789')
 SECS_CHARS = TIME_CHARS | {'.'}
@@ -146,6 +147,18 @@ def normalize_year(y, m, d):
             y, m, d = normalize_year(y, m, d)
 
     return y, m, d
+
+
+def first_of_month(year, month_):
+    """serial number of the first day of a month, also of a month before the
+    first or after the last year: the calendar repeats every 400 years"""
+    year, month_, _ = normalize_year(year, month_, 1)
+    cycles = (year - 2000) // 400
+    result = (dt.datetime(year - 400 * cycles, month_, 1) - DATE_ZERO).days
+    result += DAYS_IN_400_YEARS * cycles
+    if result <= LEAP_1900_SERIAL_NUMBER:
+        result -= 1
+    return result
 
 
 def yearfrac_basis_0(beg, end):
@@ -407,11 +420,9 @@ def date(year, month_, day):
 
     if day < 1:
         # that many days before the first of the month
-        result = date(year, month_, 1)
-        if result not in ERROR_CODES:
-            result += day - 1
-            if result < 0:
-                return NUM_ERROR
+        result = first_of_month(year, month_) + day - 1
+        if not (0 <= result < DATE_MAX_INT):
+            return NUM_ERROR
         return result
 
     # taking into account negative month and day values
